@@ -713,3 +713,49 @@ func (c *Ctx) runImageCoordMerge(r *Report, rule string, pkg string) {
 	}
 	r.inst("image.coordmerge", n)
 }
+
+// glsl.samplerprecision (C05): GLSL ES has no default precision for most sampler
+// types (and lowp for sampler2D), so every opaque uniform the writer declares
+// carries an explicit precision slot filled from the ES flag. A declaration
+// literal with "uniform " whose arguments include a combined sampler's GLSL type
+// name must have the adjacent "%s%s" pair (precision, type): siblings that
+// declare the same kind of uniform without the slot produce ES shaders that do
+// not compile or sample at low precision.
+func (c *Ctx) runSamplerPrecision(r *Report, rule string, pkg string) {
+	n := 0
+	for _, fn := range c.allFuncs() {
+		if fn.Pkg.Rel != pkg {
+			continue
+		}
+		ord := 0
+		ast.Inspect(fn.Decl.Body, func(m ast.Node) bool {
+			call, ok := m.(*ast.CallExpr)
+			if !ok || len(call.Args) < 2 {
+				return true
+			}
+			lit, ok := ast.Unparen(call.Args[0]).(*ast.BasicLit)
+			if !ok || lit.Kind != token.STRING || !strings.Contains(lit.Value, "uniform ") {
+				return true
+			}
+			samplerArg := false
+			for _, a := range call.Args[1:] {
+				if se, ok := ast.Unparen(a).(*ast.SelectorExpr); ok && se.Sel.Name == "glslTypeName" {
+					samplerArg = true
+				}
+			}
+			if !samplerArg {
+				return true
+			}
+			n++
+			ord++
+			cons := fn.id() + ":uniform#" + itoa(ord)
+			if strings.Contains(lit.Value, "uniform %s%s") {
+				r.ok(rule, cons, c.pos(call.Pos()), "")
+			} else {
+				r.viol(rule, cons, c.pos(call.Pos()), fn.id()+" declares a combined sampler uniform with "+lit.Value+", which has no precision slot: on ES targets the other sampler declarations say highp, this one does not")
+			}
+			return true
+		})
+	}
+	r.inst("glsl.samplerprecision", n)
+}
